@@ -42,7 +42,7 @@ def gen_peers(rng):
     for _ in range(1 + rng.below(6)):
         v6 = rng.chance(1, 3)
         as4 = rng.chance(1, 2)
-        peers.append({'v6': v6, 'as4': as4, 'id': rng.bytes(4), 'addr': rng.bytes(16 if v6 else 4),
+        peers.append({'v6': v6, 'as4': as4, 'id': rng.bytes(4), 'addr': rng.addr(v6),
                       'asn': rng.choice([0, 65535, 64512, rng.below(65536)]) if not as4 else rng.choice([0, 65536, 4200000000, rng.below(1 << 32)])})
     return peers
 
@@ -108,7 +108,7 @@ def gen_mp_records(rng, bgp_pool):
         pa = rng.below(1 << 32) if as4 else rng.below(65536)
         la = rng.below(1 << 32) if as4 else rng.below(65536)
         ifc = rng.below(65536)
-        a, b = rng.bytes(16 if v6 else 4), rng.bytes(16 if v6 else 4)
+        a, b = rng.addr(v6), rng.addr(v6)
         head = (struct.pack('>II', pa, la) if as4 else struct.pack('>HH', pa, la)) + struct.pack('>HH', ifc, 2 if v6 else 1) + a + b
         et = rng.chance(1, 3)
         if rng.chance(1, 4):
